@@ -52,6 +52,8 @@ def run(ck: Check) -> None:
     t5(ck)
     successor_protocol(ck, "T6")
     t8(ck, gm)
+    t9(ck, gm)
+    ck.floor("T9", 4)
     source_variables(ck, "T6")
     ck.floor("T1", 8)
     ck.floor("T2", 14)
@@ -683,6 +685,37 @@ def _source_list_ok(fm: FuncModel, osv: ast.AST, at, node_param: str) -> list[st
 
 
 # ------------------------------------------------------------------------------------------ T8
+PLAIN_DRIVERS = ("biobalm._sd_algorithms.expand_bfs", "biobalm._sd_algorithms.expand_dfs",
+                 "biobalm._sd_algorithms.expand_attractor_seeds", "biobalm._sd_algorithms.expand_to_target")
+
+
+def t9(ck: Check, gm: GrowthModel) -> None:
+    """The plain strategies grow the diagram through the single-node expansion only (node_successors(compute=True) /
+    _expand_one_node): they neither create nodes or edges themselves nor mark a node expanded. Anything else (children per
+    valuation of the source nodes, copied sub-diagrams) gives an expanded node fewer or other successors than it has in the
+    full diagram, which a later unrestricted expansion cannot repair."""
+    n = 0
+    for mod in PLAIN_DRIVERS:
+        m = ck.prog.repo.module(mod)
+        for f in ck.prog.repo.funcs():
+            if f.module is not m:
+                continue
+            fm = ck.prog.model(f)
+            n += 1
+            probs = []
+            for g in gm.events(fm):
+                probs.append(f"line {g.stmt.lineno}: `{text(g.stmt)[:60]}` creates nodes / edges directly")
+            for e in fm.field_events():
+                if e.kind == "store" and e.field in ("expanded", "skipped"):
+                    probs.append(f"line {e.stmt.lineno}: `{e.field}` of `{e.nid}` is written by the driver itself")
+            ck.ob("T9", fm, f.node, not probs, ("; ".join(sorted(set(probs))) + ": a plain strategy must leave every node either a stub "
+                  "or with its complete successor set (single-node expansion); a node marked expanded with other successors makes the "
+                  "diagram differ from the full one for good") if probs else
+                  "grows the diagram through the single-node expansion only", key=f"{f.qualname} growth")
+    if n == 0:
+        raise AnalysisError("anchor vanished: plain expansion drivers")
+
+
 def t8(ck: Check, gm: GrowthModel) -> None:
     fm = ck.prog.fm("biobalm._sd_algorithms.expand_source_blocks", "expand_source_blocks")
     params = fm.f.params()
